@@ -364,8 +364,8 @@ def cut_loop(eng: Engine, fn: FnCtx, lineno: int, spec: Loop, st: State, body: l
 							if k1 == 'raise':
 								yield ('raise', r1, s1)
 								continue
-							run_hints(eng, fn, s1, spec.hints_end)
-							for cl, t in clause_terms(eng, fn, s1, spec.invariant):
+							run_hints(eng, fn, s1, spec.hints_end, sb)
+							for cl, t in clause_terms(eng, fn, s1, spec.invariant, sb):
 								eng.oblige(fn, 'inv-pres', s1, t, cl, lineno)
 							if v0 is not None:
 								v1 = Ev(eng, fn, s1, Oracle([]), 'spec').eval(ast.parse(spec.decreases, mode='eval').body).term  # type: ignore[arg-type]
